@@ -138,7 +138,7 @@ def rule_pipeline(ctx):
             ctx.bad(R, "into_ssa/step/" + name, "expected exactly one call, found %d" % len(hits), site(CFG, fn))
             lines.append(None)
             continue
-        cs = [fact_str(c) for c in (conditions_to(fn["body"], hits[0]) or []) if c[0] != "loop"]
+        cs = [fact_str(c) for c in (conditions_to(fn["body"], hits[0]) or []) if c[0] not in ("loop", "closure")]
         ctx.check(R, "into_ssa/step/%s/unconditional" % name, not cs, "under %s" % cs, site(CFG, hits[0]))
         lines.append(line_of(hits[0]))
     if all(l is not None for l in lines):
@@ -253,9 +253,20 @@ def key_function(ctx, R):
         if f is None:
             ctx.missing(R, "Environment::" + nm)
             continue
-        le = let_env(f["body"])
-        k = le.get("name")
-        acc[nm] = render(strip(k)).replace(" ", "") if k is not None else None
+        le = sgrep.lets(f["body"])
+        pvk = sgrep.params(f)
+        keys = set()
+        for m in walk(f["body"]):
+            if m["k"] == "MethodCall" and m["method"] in ("get_variable", "add_variable") and "versions" in render(m["recv"]) and m["args"]:
+                a = strip(m["args"][0])
+                for _ in range(4):
+                    if a["k"] == "Path" and a["path"] in le:
+                        a = strip(le[a["path"]])
+                t_ = render(a).replace(" ", "")
+                if pvk:
+                    t_ = re.sub(r"\b%s\b" % re.escape(pvk[0]), "name", t_)
+                keys.add(t_)
+        acc[nm] = sorted(keys)[0] if len(keys) == 1 else (None if not keys else "|".join(sorted(keys)))
     vals = set(acc.values())
     ctx.check(R, "Environment/all-accessors-use-the-same-key", len(vals) == 1 and None not in vals, "keys: %s" % acc, SI)
     keyexpr = list(vals)[0] if len(vals) == 1 else None
